@@ -36,6 +36,31 @@ def loop_ordinal(func, node):
     return loops.index(node)
 
 
+class Forall:
+    """quantified invariant clause   forall q. lo <= q < hi  ->  body(q)   (q a SymInt).
+    Never handed to the solver as a quantifier: as a HYPOTHESIS it is kept as a fact that is instantiated at the
+    skolem index of the goal being proved (and at any index named by the lemma); as a GOAL it is skolemised."""
+
+    def __init__(self, name, lo, hi, body):
+        self.name, self.lo, self.hi, self.body = name, lo, hi, body
+
+    def instance(self, q):
+        return sym.Implies(And(self.lo <= q, q < self.hi), self.body(q))
+
+
+def prove_forall(env, path, clause, goal, facts, props, extra_instances=()):
+    """skolemise `goal`, instantiate every fact at the skolem index (plus extra_instances(q) -> iterable of index terms)"""
+    path.fresh += 1
+    q = SymInt(z3.Int("q!%d" % path.fresh))
+    path.assume(goal.lo <= q)
+    path.assume(q < goal.hi)
+    for f in facts:
+        path.assume(f.instance(q))
+        for t in extra_instances(q) if extra_instances else ():
+            path.assume(f.instance(t))
+    return env.ensure(clause, goal.body(q), props)
+
+
 class LoopCtx:
     def __init__(self, v, interp, frame, node, it):
         self.v, self.interp, self.frame, self.node, self.it = v, interp, frame, node, it
@@ -71,6 +96,7 @@ class Verifier:
         self.loops = {}
         self.calls = {}
         self.active = {}
+        self.facts = []           # quantified facts (Forall) established by cut loops / call contracts on this path
 
     def loop(self, key, ordinal, spec):
         self.loops[(key, ordinal)] = spec
@@ -136,9 +162,12 @@ class Verifier:
             if not branch(a < b):
                 return (None,)
             g0 = spec.init(ctx)
-            for cname, cond in spec.inv(ctx, a, g0):
-                env.ensure("%s::inv-init:%s" % (name, cname), cond, spec.props)
             p = cur()
+            for item in spec.inv(ctx, a, g0):
+                if isinstance(item, Forall):
+                    prove_forall(env, p, "%s::inv-init:%s" % (name, item.name), item, [], spec.props)
+                else:
+                    env.ensure("%s::inv-init:%s" % (name, item[0]), item[1], spec.props)
             p.fresh += 1
             choose = z3.Bool("cut!%d" % p.fresh)
             ghost = spec.havoc(ctx)
@@ -147,19 +176,30 @@ class Verifier:
                 i = SymInt(p.fresh_int("i"))
                 p.assume(a <= i)
                 p.assume(i < b)
-                for cname, cond in spec.inv(ctx, i, ghost):
-                    p.assume(cond)
+                facts = []
+                for item in spec.inv(ctx, i, ghost):
+                    if isinstance(item, Forall):
+                        facts.append(item)
+                    else:
+                        p.assume(item[1])
                 interp.assign(node.target, elem(i), frame)
                 r = interp.exec_block(node.body, frame)
                 if r is not None:
                     raise EngineError("break/return inside a cut loop")
                 g2 = spec.step(ctx, i, ghost)
-                for cname, cond in spec.inv(ctx, i + 1, g2):
-                    env.ensure("%s::inv-step:%s" % (name, cname), cond, spec.props)
+                for item in spec.inv(ctx, i + 1, g2):
+                    if isinstance(item, Forall):
+                        prove_forall(env, p, "%s::inv-step:%s" % (name, item.name), item, [f for f in facts if f.name == item.name],
+                                     spec.props)
+                    else:
+                        env.ensure("%s::inv-step:%s" % (name, item[0]), item[1], spec.props)
                 raise StopPath()
             # ---- exit
-            for cname, cond in spec.inv(ctx, b, ghost):
-                p.assume(cond)
+            for item in spec.inv(ctx, b, ghost):
+                if isinstance(item, Forall):
+                    self.facts.append(item)
+                else:
+                    p.assume(item[1])
             interp.assign(node.target, elem(b - 1) if not isinstance(it, (SeqList, ArrList)) else None, frame)
             return (None,)
         raise EngineError("loop cut on while: use WhileSpec")
